@@ -95,10 +95,27 @@ ItemsOuterList == <<
   Dt(<<"inners">>, L2(CPI(Bare("Sub1"), D1("b", VStr("k"))), InnerSub2)), W(D1("inners", VList(<<Path("make_base")>>))), W(Bare("OuterList")),
   Dt(<<"inners">>, L2(CPI(Bare("Sub1"), D1("a", VInt(7))), Bare("Base"))), W(D1("inners", VList(<<InnerSub2>>)))       \* a shorter list after a longer one
 >>
+DK2(v1, v2) == D2("k1", v1, "k2", v2)
+DK3(v1, v2, v3) == D3("k1", v1, "k2", v2, "k3", v3)
+IA(n, v) == D1("init_args", D1(n, v))
+ES1 == CPI(Bare("Sub1"), D2("a", VInt(5), "b", VStr("k")))
+ES1w == CPI(Path("Sub1"), D1("b", VStr("w")))
+ES2 == CPI(Bare("Sub2"), D1("c", VInt(1)))
 ItemsOuterDict == <<
   W(D1("inners", D2("k1", CP(Bare("Sub1")), "k2", Bare("Base")))), Dt(<<"inners">>, D1("k1", InnerSub2)),
   W(D1("inners", D1("k1", CPI(Bare("Sub1"), D1("b", VStr("k")))))), W(D1("inners", D1("k3", Path("Other")))), W(D1("inners", VDict(EF))),
-  W(D1("inners", L2(Bare("Sub1"), Bare("Sub1"))))
+  W(D1("inners", L2(Bare("Sub1"), Bare("Sub1")))),
+  \* 7-18: two / three keys, each a subclass spec; a later source overrides the first / a non-first / several keys in the short form
+  \* (init_args only, parameters only), with the same class_path and part of the init_args, or with a changed class_path
+  C(D1("inners", DK2(ES1, ES1w))), W(D1("inners", DK3(ES1, ES2, ES1w))), C(CPI(Bare("OuterDict"), D1("inners", DK2(ES1, ES2)))),              \* 7-9 earlier sources
+  C(D1("inners", DK2(IA("a", VInt(6)), IA("a", VInt(7))))),                                                                             \* 10 both keys short
+  W(D1("inners", DK2(CPI(Bare("Sub1"), D1("a", VInt(6))), IA("b", VStr("z"))))),                                                         \* 11 k1 same class partial, k2 short
+  C(D1("inners", DK2(ES1, D1("a", VInt(7))))),                                                                                          \* 12 k2 parameters only
+  Dt(<<"inners">>, DK2(IA("a", VInt(6)), CPI(Bare("Sub3"), D1("a", VStr("u"))))),                                                       \* 13 k1 short, k2 changes class
+  W(D1("inners", D1("k2", IA("a", VInt(7))))),                                                                                          \* 14 only k2, short (k1 is dropped)
+  C(D1("inners", DK3(Bare("Sub1"), IA("a", VInt(8)), IA("b", VStr("y"))))),                                                             \* 15 three keys: k2, k3 short
+  W(D1("inners", DK3(IA("b", VStr("q")), CPI(Path("Sub2"), D1("a", VInt(9))), ES1w))),                                                   \* 16 k1 short, k2 same class partial (c kept)
+  C(D1("inners", DK2(IA("zz", VInt(1)), IA("a", VInt(7))))), W(D1("inners", DK2(IA("a", VInt(6)), IA("c", VInt(3)))))                   \* 17 unknown init_arg in k1; 18 c only valid for Sub2
 >>
 ItemsOuterUnion == <<
   Dt(<<"inner">>, Bare("Sub1")), Dt(<<"inner">>, Bare("Other")), Dt(<<"inner">>, Path("Other")), Dt(<<"inner", "a">>, VInt(3)),
@@ -175,6 +192,6 @@ Spec == Init /\ [][MCNext]_vars
 ASSUME Emit => PrintT(ToJson([fam |-> Fam]))
 EmitCase == (Emit /\ Done) =>
   PrintT(ToJson([id |-> cs.aid, T |-> cs.T, items |-> cs.items, dflt |-> cs.dflt, chan |-> cs.chan,
-                 explicit |-> IF cs.dflt = NoVal THEN ExplicitItems(Fam, cs.T, cs.items) ELSE << >>,
+                 explicit |-> IF cs.dflt = NoVal /\ ~EmptyDictDeviation THEN ExplicitItems(Fam, cs.T, cs.items) ELSE << >>,
                  alg |-> AlgParsed, ref |-> RefOf(NoDev), code |-> RefOf(CodeDev), log |-> log]))
 =============================================================================
